@@ -21,8 +21,8 @@ CONSTANTS NInst, Vecs,      \* Vecs: set of feature vectors (sequences of intege
 None == [n |-> 0, sum |-> <<>>, sq |-> <<>>]      \* "no statistics"
 Absent == [kind |-> "absent"]
 
-VARIABLES inst, bag, fs, err, nops, lastSaved, lastOp
-vars == <<inst, bag, fs, err, nops, lastSaved, lastOp>>
+VARIABLES inst, bag, base, fs, err, nops, lastSaved, lastOp
+vars == <<inst, bag, base, fs, err, nops, lastSaved, lastOp>>
 
 Add(s, v) == IF s = None THEN [n |-> 1, sum |-> v, sq |-> [i \in 1..Len(v) |-> v[i] * v[i]]]
              ELSE [n |-> s.n + 1, sum |-> [i \in 1..Len(v) |-> s.sum[i] + v[i]],
@@ -39,7 +39,7 @@ AccVector(i, v) ==
      THEN err' = "ValueError" /\ UNCHANGED <<inst, bag>>
      ELSE /\ inst' = [inst EXCEPT ![i] = Add(inst[i], v)]
           /\ bag' = [bag EXCEPT ![i] = Append(bag[i], v)] /\ err' = ""
-  /\ nops' = nops + 1 /\ lastOp' = [op |-> "acc", ow |-> FALSE] /\ UNCHANGED <<fs, lastSaved>>
+  /\ nops' = nops + 1 /\ lastOp' = [op |-> "acc", ow |-> FALSE] /\ UNCHANGED <<fs, lastSaved, base>>
 
 \* a tensor of several vectors (all of one dimension) in one accumulate call
 AccTensor(i, vs) ==
@@ -48,7 +48,7 @@ AccTensor(i, vs) ==
      THEN err' = "ValueError" /\ UNCHANGED <<inst, bag>>
      ELSE /\ inst' = [inst EXCEPT ![i] = AddAll(inst[i], vs)]
           /\ bag' = [bag EXCEPT ![i] = bag[i] \o vs] /\ err' = ""
-  /\ nops' = nops + 1 /\ lastOp' = [op |-> "acc", ow |-> FALSE] /\ UNCHANGED <<fs, lastSaved>>
+  /\ nops' = nops + 1 /\ lastOp' = [op |-> "acc", ow |-> FALSE] /\ UNCHANGED <<fs, lastSaved, base>>
 
 FirstUnused(entries) == LET used == {e.key : e \in entries}
                             N == Cardinality(entries)
@@ -67,7 +67,7 @@ Save(i, p, key, overwrite) ==
                         k == IF key = "" THEN "arr_" \o ToString(FirstUnused(old)) ELSE key
                     IN fs' = [fs EXCEPT ![p] = [kind |-> "npz",
                                                 entries |-> {e \in old : e.key # k} \cup {[key |-> k, stats |-> inst[i]]}]]
-  /\ nops' = nops + 1 /\ lastOp' = [op |-> "save", ow |-> overwrite] /\ UNCHANGED <<inst, bag>>
+  /\ nops' = nops + 1 /\ lastOp' = [op |-> "save", ow |-> overwrite] /\ UNCHANGED <<inst, bag, base>>
 
 \* Standardize(rfilename = p [, key]) into instance slot j (a fresh object)
 Load(j, p, key) ==
@@ -79,9 +79,10 @@ Load(j, p, key) ==
             IN IF hit = {} THEN err' = "KeyError" /\ UNCHANGED inst
                ELSE inst' = [inst EXCEPT ![j] = (CHOOSE e \in hit : TRUE).stats] /\ err' = ""
   /\ bag' = [bag EXCEPT ![j] = IF err' = "" THEN <<>> ELSE bag[j]]
+  /\ base' = [base EXCEPT ![j] = IF err' = "" THEN inst'[j] ELSE base[j]]
   /\ nops' = nops + 1 /\ lastOp' = [op |-> "load", ow |-> FALSE] /\ UNCHANGED <<fs, lastSaved>>
 
-Init == /\ inst = [i \in 1..NInst |-> None] /\ bag = [i \in 1..NInst |-> <<>>]
+Init == /\ inst = [i \in 1..NInst |-> None] /\ bag = [i \in 1..NInst |-> <<>>] /\ base = [i \in 1..NInst |-> None]
         /\ fs = [p \in Paths |-> Absent] /\ err = "" /\ nops = 0 /\ lastSaved = [p \in Paths |-> None]
         /\ lastOp = [op |-> "init", ow |-> FALSE]
 NAccV == \E i \in 1..NInst, v \in Vecs : AccVector(i, v)
@@ -93,12 +94,10 @@ Spec == Init /\ [][Next]_vars
 
 \* C16: statistics are those of the bag of everything accumulated since the instance was created / loaded,
 \* whatever the split into calls (the bag is only reset by Load, which the trace of loaded stats then seeds)
-C16_StatsAreBagSum == \A i \in 1..NInst : bag[i] # <<>> =>
-                        \E base \in {None} \cup {lastSaved[p] : p \in Paths} \cup
-                                    UNION {IF fs[p].kind = "npz" THEN {e.stats : e \in fs[p].entries} ELSE {} : p \in Paths} :
-                           (base = None \/ Dim(base) = Len(bag[i][1])) /\ inst[i] = AddAll(base, bag[i])
+\* (base[i]: what instance i was loaded with, None for a fresh one; a history variable)
+C16_StatsAreBagSum == \A i \in 1..NInst : inst[i] = AddAll(base[i], bag[i])
 C16_CountIsBagSize == \A i \in 1..NInst : inst[i].n >= Len(bag[i])
-C16_DimMismatchIsNoChange == [][err' = "ValueError" => UNCHANGED <<inst, bag, fs>>]_vars
+C16_DimMismatchIsNoChange == [][err' = "ValueError" => UNCHANGED <<inst, bag, base, fs>>]_vars
 \* C17
 C17_FileHoldsWhatWasSaved ==
   \A p \in Paths : lastSaved[p] # None =>
